@@ -167,7 +167,7 @@ func sharedWrites(p *pkgInfo) (writes []string, globals []string) {
 						}
 						isGlobal := obj != nil && obj.Parent() == p.pkg.Scope()
 						if (roots[id.Name] && depth > 0) || isGlobal {
-							writes = append(writes, name+": "+p.text(lhs))
+							writes = append(writes, name+"\x00"+p.text(lhs))
 						}
 					}
 					switch s := n.(type) {
@@ -191,7 +191,11 @@ func sharedWrites(p *pkgInfo) (writes []string, globals []string) {
 func lstrList(xs []string) string {
 	parts := make([]string, len(xs))
 	for i, x := range xs {
-		parts[i] = "  " + lstr(x)
+		if j := strings.IndexByte(x, 0); j >= 0 {
+			parts[i] = "  (" + lstr(x[:j]) + ", " + lstr(x[j+1:]) + ")"
+		} else {
+			parts[i] = "  " + lstr(x)
+		}
 	}
 	return "[\n" + strings.Join(parts, ",\n") + "\n]"
 }
@@ -229,7 +233,7 @@ func rootedCalls(p *pkgInfo, fnName string, root string) []string {
 				}
 				if uses {
 					txt := p.text(call.Fun)
-					out = append(out, name+": "+txt)
+					out = append(out, name+"\x00"+txt)
 				}
 				return true
 			})
